@@ -435,6 +435,10 @@ NextGuard ==
                \/ BinaryRead("dot",t,s) \/ BinaryRead("rotateU",t,s))
         \/ \E t \in Vecs, a \in Vecs, b \in Vecs, op \in {"add","sub","icomm","acomm","evolve","elementwise"}, w \in {"=","+=","-=","ctor"} :
               Live(a) /\ Live(b) /\ vec[a].dim # vec[b].dim /\ AssignExpr(t, w, op, a, b, FALSE, FALSE, 1, 0)
+        \* compound assignment of an expression of another dimension (operands agree with each other, not with the target)
+        \/ \E t \in Vecs, a \in Vecs, b \in Vecs, x \in {y \in ExprArgs : y.op \in {"add","sub","neg","elementwise"}}, w \in {"+=","-="} :
+              /\ Live(t) /\ Live(a) /\ vec[t].dim # vec[a].dim /\ ValidDim(vec[t].dim)
+              /\ AssignExpr(t, w, x.op, a, IF Arity(x.op) = 1 THEN a ELSE b, x.arv, x.brv, 1, 0)
         \* the overloads taking rvalue operands have their own guards
         \/ \E t \in Vecs, a \in Vecs, b \in Vecs, x \in {y \in ExprArgs : y.op \in {"add","sub","elementwise"} /\ (y.arv \/ y.brv)}, w \in {"=","+=","-=","ctor"} :
               Live(a) /\ Live(b) /\ vec[a].dim # vec[b].dim /\ AssignExpr(t, w, x.op, a, b, x.arv, x.brv, 1, 0)
